@@ -145,6 +145,7 @@ var rules = []rule{
 	r(`default value cannot be set because field is a message`, "default-message"),
 	r(`default value is not allowed on fields with implicit presence`, "default-implicit"),
 	r(`cannot use closed enum`, "closed-enum-implicit"),
+	r(`enum value in map must define 0 as the first value`, "map-enum-first-zero"),
 	r(`default value cannot be a message`, "default-message"),
 	r(`enum \S+ has no value named|is not a member of enum|expecting enum|expecting identifier|expecting (string|int|uint|bool|float|double|bytes)|out of range for|is out of range|value is not a valid`, "default-bad-value"),
 	r(`cannot be defined more than once`, "option-repeated"),
